@@ -23,6 +23,12 @@ def forwarding(ctx, clause, label, param_pred, source_nodes, skip_modules=(), sk
                 b = bind_args(cs.node, f)
                 arg = b["bound"].get(prm)
                 key = "R-PLUMB|%s|%s->%s" % (label, cs.func.short, f.short)
+                # an argument read from a field of another object (`self._owner._field`) is identified by that field, not by
+                # the function the read happens to sit in: the finding is about what the owner was given
+                if isinstance(arg, ast.Attribute) and isinstance(arg.value, ast.Attribute):
+                    owners = sorted(t[1].split(":")[-1] for t in r.type_of(arg.value, cs.func) if t[0] == "inst")
+                    if len(owners) == 1:
+                        key = "R-PLUMB|%s|via %s.%s->%s" % (label, owners[0], arg.attr, f.short)
                 if arg is None:
                     obs.append(Ob(clause, "R-PLUMB", key, cs.func.loc(cs.node), False,
                                   "%s calls %s without `%s`: the callee works with its default %s whatever the user configured" % (
